@@ -202,6 +202,9 @@ func c08r3(r *R) {
 					good = true
 				}
 			}
+			if isNewHelper(lit) && arg == "$0.Conn" {
+				good = true // a method started with `go c.m(...)`: its receiver is the connection itself
+			}
 			r.check(good, "readHeaderContext#reader", c.Pos(), "header parsed from the embedded conn", "header is parsed from "+arg)
 		}
 	}
@@ -217,7 +220,10 @@ func c08r4(r *R) {
 		if _, isPanic := p.Exit.(*ssa.Panic); isPanic {
 			continue
 		}
-		if p.eventIndex(0, "go", prefix("(*proxyproto.Conn).readHeaderContext$1")) < 0 {
+		// the reader goroutine: the function literal, or the method it may have been turned into
+		if p.eventIndex(0, "go", func(d string) bool {
+			return strings.HasPrefix(d, "(*proxyproto.Conn).readHeaderContext$1") || strings.HasPrefix(d, "(*proxyproto.Conn).") && strings.Contains(d, "($0, ")
+		}) < 0 {
 			continue
 		}
 		hasWT := p.eventIndex(0, "call", eq(wt)) >= 0
